@@ -109,44 +109,40 @@ def handover_order(ctx, p):
 
 
 def owner_id_removal(ctx, p):
+    """every removal from a commit-overlay / log-overlay map is guarded by the owner id (record id tag == argument),
+    except the wholesale reset at the end of a failed replay."""
     F = ctx.F
+    RM = re.compile(r'(OccupiedEntry.*::(remove_entry|remove)|HashMap.*::(remove|remove_entry|clear|retain|drain|extract_if)|BTreeMap.*::(remove|remove_entry|clear|retain|pop_first|pop_last|split_off|extract_if)|std::mem::take|std::mem::replace)$')
+    maps = ['.CommitOverlay.indexed', '.CommitOverlay.address', '.CommitOverlay.btree_indexed', '.LogOverlays.index', '.LogOverlays.value', '.LogOverlays.ref_count',
+            '.IndexLogOverlay.map', '.ValueLogOverlay.map', '.RefCountLogOverlay.map']
+    RESET_OK = {'log::Log::clear_replay_logs': 'replay is over (or failed): the log overlay is emptied wholesale before the logs are cleaned'}
     n = 0
-    for fn, rid_param in (('db::IndexedChangeSet::clean_overlay', 3), (CLEAN_BT, 3), ('log::Log::end_read', 3)):
-        b = ctx.body(fn)
-        if not b:
-            continue
-        sites = b.call_sites(*REMOVE_ENTRY)
-        for i, s in enumerate(sites):
-            n += 1
-            lib.eq_guarded(ctx, p + 'a owner-guard %s #%d' % (fn, i), b, s,
-                           'an overlay entry is removed only if its record-id tag (tuple field 0) equals the record_id argument',
-                           fields=['.#0'], params=[rid_param])
-    ctx.ob(p + 'b owner-guard-count', 'anchor', '-', 'six guarded removal sites exist (2 indexed/address, 1 btree, 3 log overlay)', n == 6, 'found %d' % n)
-    # nobody else removes from the overlays
-    RM = r'(::remove(_entry)?|::clear|::retain|::drain|::extract_if|::pop_first|::pop_last|::split_off|::take)$'
-    rx = re.compile(RM)
-    offenders = []
-    allowed = {
-        '.CommitOverlay.indexed': {'db::IndexedChangeSet::clean_overlay'},
-        '.CommitOverlay.address': {'db::IndexedChangeSet::clean_overlay'},
-        '.CommitOverlay.btree_indexed': {CLEAN_BT},
-        '.LogOverlays.index': {'log::Log::end_read', 'log::Log::clear_replay_logs'},
-        '.LogOverlays.value': {'log::Log::end_read', 'log::Log::clear_replay_logs'},
-        '.LogOverlays.ref_count': {'log::Log::end_read', 'log::Log::clear_replay_logs'},
-    }
-    for b in F.bodies.values():
-        for bi, t in b.all_calls():
-            nm = t.get('r') or t.get('f') or ''
-            if not rx.search(nm.split('<')[0] if False else nm):
+    for b in sorted(F.bodies.values(), key=lambda x: x.path):
+        if b.path.startswith(('log::LogWriter', 'log::LogChange')):
+            continue      # the record being built (local overlays of a LogWriter), not the shared overlays
+        for bi, t in b.calls():
+            if bi not in b.normal_blocks():
                 continue
-            if not t['a']:
+            nm = t.get('r') or t.get('f') or ''
+            if not RM.search(nm) or not t['a']:
                 continue
             fl = lib.receiver_fields(b, t, 0)
-            for f, al in allowed.items():
-                if f in fl and b.path not in al and not b.path.startswith(tuple(al)):
-                    offenders.append('%s calls %s on %s at %s' % (b.path, nm, f, b.loc(bi)))
-    ctx.ob(p + 'c no-other-overlay-removal', 'K4-confinement', '-',
-           'no body other than clean_overlay / end_read / clear_replay_logs removes entries from the commit or log overlay maps', not offenders, '; '.join(offenders[:4]))
+            hit = [m for m in maps if m in fl]
+            # BTreeChangeSet::clean_overlay receives the btree overlay map itself as a parameter
+            if not hit and b.path == CLEAN_BT and op_place(t['a'][0]) is not None and 2 in backward_slice(b, [op_place(t['a'][0])]).params:
+                hit = ['(btree overlay parameter)']
+            if not hit:
+                continue
+            if b.path in RESET_OK:
+                ctx.ob(p + 'a overlay-reset %s %s' % (b.path, hit[0]), 'K4-confinement', b.path, 'wholesale reset, reviewed: ' + RESET_OK[b.path], nm.endswith('::clear'), nm, b.loc(bi))
+                continue
+            n += 1
+            # record id parameter of the enclosing function: named record_id
+            rid = [l for l, name in b.names.items() if name == 'record_id' and 1 <= l <= b.argc]
+            lib.eq_guarded(ctx, p + 'a owner-guard %s %s #bb-of-%s' % (b.path, hit[0], nm.split('::')[-1]), b, bi,
+                           'an overlay entry is removed only if its record-id tag (tuple field 0) equals the record id this call is cleaning for (a later commit\'s newer entry for the same key must survive)',
+                           fields=['.#0'], params=rid[:1] or [3])
+    ctx.ob(p + 'b owner-guard-count', 'anchor', '-', 'six guarded removal sites exist (indexed, address, btree; log index, value, ref-count)', n >= 6, 'found %d' % n)
 
 
 READ_FNS = [
@@ -437,8 +433,8 @@ def sync_before_handover(ctx, p):
     pushers = lib.calls_on_field(F, [PUSH_BACK, 're:VecDeque.*::(push_front|extend|append|insert)$'], '.Log.read_queue')
     pb = sorted(set(b.path for b, _ in pushers))
     ctx.ob(p + 'a read_queue-producers', 'K4-confinement', ','.join(pb) or '-',
-           'only Log::flush_one hands a log file over to the applier (pushes onto Log.read_queue)',
-           pb == ['log::Log::flush_one'], 'bodies pushing onto Log.read_queue: %s' % pb)
+           'only Log::flush_one (or a helper called only by it) hands a log file over to the applier (pushes onto Log.read_queue)',
+           bool(pb) and all(reachable_only_through(F, x, 'log::Log::flush_one') for x in pb), 'bodies pushing onto Log.read_queue: %s' % pb)
     fo = ctx.body('log::Log::flush_one')
     if fo:
         sync_true = lib.prune_bool_field(fo, '.Log.sync', True)
@@ -457,4 +453,55 @@ def sync_before_handover(ctx, p):
     poppers = lib.calls_on_field(F, [POP_FRONT, 're:VecDeque.*::(pop_back|drain|remove|swap_remove_.*|split_off|clear|truncate)$', 'std::mem::take', 'std::mem::replace'], '.Log.read_queue')
     pp = sorted(set(b.path for b, _ in poppers))
     ctx.ob(p + 'f read_queue-consumers', 'K4-confinement', ','.join(pp) or '-',
-           'only Log::read_next takes files from Log.read_queue', pp == ['log::Log::read_next'], 'consumers: %s' % pp)
+           'only Log::read_next (or a helper called only by it) takes files from Log.read_queue', bool(pp) and all(reachable_only_through(F, x, 'log::Log::read_next') for x in pp), 'consumers: %s' % pp)
+    # a reader is installed only to be used at once: read_next never reports "nothing to read" (Ok(None)) while leaving a
+    # freshly installed, unread file in Log.reading (Log::kill_logs unlinks whatever is in `reading`)
+    rn = F.body('log::Log::read_next')
+    if rn is not None:
+        installs = [bi for bi, t in rn.calls() if bi in rn.normal_blocks() and (call_matches(t, [POP_FRONT]) and '.Log.read_queue' in lib.receiver_fields(rn, t, 0)
+                                                                                 or any(x in F.bodies and F.bodies[x].path != rn.path and any(call_matches(t2, [POP_FRONT]) and '.Log.read_queue' in lib.receiver_fields(F.bodies[x], t2, 0) for _, t2 in F.bodies[x].all_calls()) for x in call_names(t)))]
+        nones = []
+        for bi in rn.normal_blocks():
+            for st in rn.blocks[bi]['s']:
+                if st['k'] == 'assign' and st['p'] == [0] and st['r']['k'] == 'agg' and st['r']['ak'] == 'Adt:std::result::Result::Ok':
+                    sl = backward_slice(rn, [op_place(st['r']['a'][0])], through_calls=False) if op_place(st['r']['a'][0]) else None
+                    if sl and any(x[2] == 'assign' and x[3]['r']['k'] == 'agg' and x[3]['r']['ak'] == 'Adt:std::option::Option::None' for l in sl.locals for x in rn.defs().get(l, [])):
+                        nones.append(bi)
+        takes = [bi for bi, t in rn.calls() if call_matches(t, ['re:Option.*::take$'])]
+        w = None
+        for i in installs:
+            # on the Some(file) outcome of the pop
+            w = w or rn.find_path(list(rn.succ(i)), set(nones), removed=set(takes))
+        # paths where the pop returned None are fine: refine by requiring the path to pass a `Reading` aggregate
+        mk = [bi for bi in rn.normal_blocks() for st in rn.blocks[bi]['s'] if st['k'] == 'assign' and st['r']['k'] == 'agg' and st['r']['ak'] == 'Adt:log::Reading']
+        w2 = None
+        for m2 in mk:
+            w2 = w2 or rn.find_path(list(rn.succ(m2)), set(nones), removed=set(takes))
+        helper_installs = [i for i in installs if not call_matches(rn.term(i), [POP_FRONT])]
+        w3 = None
+        for i in helper_installs:
+            # installation inside a helper: after the helper returned, Ok(None) must not be reachable without a take ... unless the helper reported "nothing installed"
+            if any(i in rn.reaches(tk) for tk in takes):
+                w3 = 'a reader can be installed (via %s at %s) after the exhausted one was taken, on a path that then reports Ok(None)' % (rn.term(i).get('r'), rn.loc(i))
+        ctx.ob(p + 'f2 no-unread-reader-left-behind', 'K2-order', rn.path,
+               'whenever read_next installs a log file as the current reader, it returns that reader (or an error); it never returns Ok(None) with an unread file left in Log.reading',
+               bool(installs) and w2 is None and w3 is None, w3 or ('' if w2 is None else 'path from installing the reader to Ok(None): ' + lib.short_path(rn, w2)))
+
+
+def reachable_only_through(F, fn, gate):
+    """fn is `gate` itself or a helper that is (transitively) called only from `gate`."""
+    if fn == gate:
+        return True
+    seen = {fn}
+    stack = [fn]
+    while stack:
+        x = stack.pop()
+        cs = F.callers(x)
+        if not cs:
+            return False          # a root other than the gate
+        for c in cs:
+            if c == gate or c in seen:
+                continue
+            seen.add(c)
+            stack.append(c)
+    return True
